@@ -11,6 +11,12 @@ Call == /\ More /\ Ev.op = "call"
         /\ cnt' = ConfNext(cfg.wait, cnt, Ev.v)
         /\ Chk("counters", cnt', Ev.cnt)
         /\ cfg' = cfg /\ Adv
-Next == Call
+(* the three stateless elections on member lists of any length (ev.kind, parameters ev.a / ev.c, member states ev.v) *)
+Stateless == /\ More /\ Ev.op = "stateless"
+             /\ Chk("verdict", CASE Ev.kind = "majority" -> Majority(Ev.v)
+                                  [] Ev.kind = "min"      -> MinApproval(Ev.a, Ev.v)
+                                  [] Ev.kind = "ordered"  -> OrderedApproval(Ev.a, Ev.c, Ev.v), Ev.out)
+             /\ UNCHANGED <<cfg, cnt>> /\ Adv
+Next == Call \/ Stateless
 Spec == Init /\ [][Next]_tvars
 =============================================================================
